@@ -25,6 +25,9 @@ func VerifRegCell(L *LState, i int) (v LValue, ok bool) {
 	return L.reg.array[i], true
 }
 
+// VerifRegLimit is the size L's registry enforces on programs (its array may be one error message longer).
+func VerifRegLimit(L *LState) int { return L.reg.limit }
+
 // VerifRegCap is the current capacity of L's registry.
 func VerifRegCap(L *LState) int { return cap(L.reg.array) }
 
@@ -160,6 +163,12 @@ func (v *VerifRegistry) Insert(x LValue, reg int) string {
 	return v.guard(func() { v.rg.Insert(x, reg) })
 }
 func (v *VerifRegistry) IsFull() bool { return v.rg.IsFull() }
+func (v *VerifRegistry) Limit() int   { return v.rg.limit }
+
+// PushRaw is registry.pushRaw (raiseError stores its message with it after making room).
+func (v *VerifRegistry) PushRaw(x LValue) string {
+	return v.guard(func() { v.rg.pushRaw(x) })
+}
 
 // ForceResize is registry.forceResize (used by LState.raiseError to make room for the message).
 func (v *VerifRegistry) ForceResize(n int) string {
